@@ -4,12 +4,14 @@ import FrappyModel.Generated.C15
 C15 — Lifecycle: initialise, write config, poll, serve; shutdown in reverse order.
 Property theorems over `FrappyModel.Klass.Lifecycle` against `FrappyModel.Spec.C15`.
 
-Proved in full strength (every graph with a topological numbering, every choice function of `set.pop()`, every
-schedule): `sorted_modules_topological`, `shutdown_phase_order`, `ready_only_after_first_round`.
-Kept as `…_statement` (full statement, not proved — the correspondence run and the monitors are the evidence for
-them): `init_order_once_statement`, `attached_ready_statement`, `bad_attachment_reported_statement`,
-`writes_before_first_poll_statement`, `shutdown_order_statement`, `ready_after_first_round_statement`.
-`attached_ready_fails` proves the recorded finding on the model.
+Proved for every configuration, fuel, schedule and choice function of `set.pop()` (whole runs):
+`attached_ready`, `no_half_start`, `ready_after_first_round`; `sorted_modules_topological` (every graph with a
+topological numbering); `shutdown_phase_order`, `shutdown_order_whole_run` (resolved attachments assumed acyclic);
+`init_order_once_partial` (one early, one init, in order, for every initialised module of a node that came up; every
+module of the creation loop initialised; the start phase logs exactly the start loop); `ready_only_after_first_round`.
+Kept as `…_statement` (not proved; evidence = correspondence run + monitors): `init_order_once_statement`,
+`bad_attachment_reported_statement` (its second half is `no_half_start`), `writes_before_first_poll_statement`,
+`shutdown_order_statement` (declared instead of resolved attachments).
 -/
 namespace Frappy.Proofs.C15
 open Frappy.Lifecycle Frappy.Spec.C15 Frappy.Proofs.Lifecycle Frappy.Proofs.LifecycleInit Frappy.Proofs.LifecycleWait
@@ -131,6 +133,41 @@ example : (waitRun (waitInit { modules := ["a"], groups := [("a", "a")], mcfg :=
 example : (wakeStep (waitRun (waitInit { modules := ["a"], groups := [("a", "a")], mcfg := [modA] })
     [.main, .main, .step "a", .step "a"])).ready = true := by
   decide +kernel
+
+/-- proved part of `init_order_once`: in every life of a node that came up (no errors; every schedule and choice
+function) every initialised module has exactly one `early` and exactly one `init` event in the whole log, in that
+order; every module produced by the creation loop is initialised (unless the fuel bound was hit); and the start
+phase logs exactly the start loop — one `start` per module of the node, in declaration order — whatever the schedule.
+Missing for the full statement: that no module is created after the creation loop (so that "initialised" covers all
+of `modules`), the position of `start m` after `init m` stated on the log, and that a clean configuration produces no
+error. -/
+theorem init_order_once_partial (cfg : Cfg) (fuel : Nat) (sched : List Act) (pick : List Name → Nat)
+    (herr : (run cfg fuel sched pick).st.errors = []) :
+    (∀ m ∈ (run cfg fuel sched pick).st.inited,
+      OnceInOrder (Ev.early m) (Ev.init m) (run cfg fuel sched pick).log) ∧
+    ((run cfg fuel sched pick).st.oof = false →
+      ∀ m ∈ (createLoop cfg.dyn fuel fuel cfg.mods { known := cfg.mods }).modules,
+        m ∈ (run cfg fuel sched pick).st.inited) ∧
+    (waitPhase (run cfg fuel sched pick).st sched).filter isMainEv = startEvents (run cfg fuel sched pick).st := by
+  rw [(run_log cfg fuel sched pick).1] at herr ⊢
+  rw [(run_log cfg fuel sched pick).2]
+  have hcore : (core cfg fuel).errors = [] := by
+    rw [startup_eq] at herr
+    split at herr
+    · exact herr
+    · simpa [emit] using herr
+  have hst : startup cfg fuel = core cfg fuel := by
+    rw [startup_eq]; simp [hcore]
+  refine ⟨?_, ?_, start_loop_complete _ sched⟩
+  · intro m hm
+    simp only [herr, List.isEmpty_nil, if_true]
+    rw [hst] at hm ⊢
+    apply onceInOrder_append _ _ _ _ (core_once cfg fuel hcore m hm)
+    · intro h; have := (later_no_init _ sched pick _ h).2; simp [isInitEv] at this
+    · intro h; have := (later_no_init _ sched pick _ h).2; simp [isInitEv] at this
+  · intro hoof m hm
+    rw [hst] at hoof ⊢
+    exact core_created_inited cfg fuel hoof m hm
 
 def init_order_once_statement : Prop :=
   ∀ (cfg : Cfg) (fuel : Nat) (sched : List Act) (pick : List Name → Nat),
